@@ -67,7 +67,7 @@ def plan(tier, seed):
     if tier == 'quick':
         sizes = {'gen': (90000, 8), 'op': (30000, 3), 'meth': (20000, 2),
                  'out': (30000, 3)}
-        secs = 45
+        secs = 35
     else:
         sizes = {'gen': (2000000, 9), 'op': (600000, 3), 'meth': (300000, 2),
                  'out': (500000, 2)}
@@ -558,8 +558,8 @@ def gen_case(acc, H, i, ent, templates, probes, classify=True):
             leaf2 = [0.5 if isinstance(a, tuple) else a for a in leaf]
             r2, x2, c2 = H.count_created(lambda: meth(*leaf2))
             if x1 is None and x2 is None:
-                st['tuple_probe'] = (list_shape(r1) == list_shape(r2)
-                                     and c1 == c2)
+                # a tuple must behave like a scalar: same result nesting
+                st['tuple_probe'] = list_shape(r1) == list_shape(r2)
                 st['tuple_repr'] = (repr(leaf)[:300], repr(r1)[:300],
                                     repr(r2)[:300])
         if not ent['returns']:
@@ -771,7 +771,16 @@ def run_op(spec, acc, H):
             recv = gen_receiver(rng, p_num, rates)
             other = M.gen_template(rng, pos_num, 0.4, 0.0, rates)
             reverse = (not named) and rng.random() < 0.4
-            if reverse and name in COMPARISONS and other[0] == 'list':
+            if rng.random() < 0.15:
+                # a single unit against a plain (nested) list: the operator
+                # itself has to expand (BinaryOpUGen through _multi_new)
+                recv = ('ugen', rng.choice(rates))
+                mirrored = reverse and name in COMPARISONS
+                other = M.gen_template(
+                    rng, pos_num, 0.0 if mirrored else 0.4, 0.0, rates,
+                    force=rng.choice(['list', 'list', 'nested']))
+                fam = fam + '-unit'
+            elif reverse and name in COMPARISONS and other[0] == 'list':
                 # python dispatches `plain_list <cmp> ChannelList` to the
                 # mirrored comparison of the subclass: equivalent, but not
                 # structurally the same call - keep the operand scalar
@@ -794,6 +803,7 @@ def op_callables(H, fam, name, reverse):
     import operator
     bi = H.bi
     UG = H.ugn.UGen
+    fam = fam.replace('-unit', '')
     if fam == 'pybin':
         f = getattr(operator, name)
         if reverse:
@@ -869,7 +879,7 @@ def op_case(acc, H, i, fam, name, recv, other, reverse, classify=True):
     if kind and classify:
         generic = False
         canon = {'pybin': 'add', 'namedbin': 'min', 'pyun': 'neg',
-                 'namedun': 'neg'}[fam]
+                 'namedun': 'neg'}[fam.replace('-unit', '')]
         if name != canon:
             class _Null:
                 def count(self, *a): pass
@@ -883,10 +893,11 @@ def op_case(acc, H, i, fam, name, recv, other, reverse, classify=True):
                 wit['op_specific_kind'] = kind
                 kind = k2
         arity = 'binop' if binary else 'unop'
+        who = 'unit-list' if fam.endswith('-unit') else 'chlist'
         if generic or name == canon:
-            key = f'C03/chlist-{arity}/{kind}'
+            key = f'C03/{who}-{arity}/{kind}'
         else:
-            key = f'C03/chlist-{arity}/{kind}/{opname}'
+            key = f'C03/{who}-{arity}/{kind}/{opname}'
         acc.violation(key, wit)
     return kind
 
